@@ -334,6 +334,8 @@ class Ctx:
 
     # ---- variables
     def byte(self, name):
+        if name in self.inputs:          # the same hole used twice: the same variable, constraints kept
+            return self.inputs[name]
         v = z3.BitVec(name, 8)
         self.inputs[name] = v
         free_vars(v)
